@@ -11,7 +11,9 @@ value per access, in program order; the locals `tail`/`head` live in the program
          write   `(*self.buffer[tail & mask].get()).write(value)`
          stTail  `self.tail.store(tail.wrapping_add(1), Release)`
   pop:   ldHead  `let head = self.head.load(Relaxed)`
-         ldTail  `let tail = self.tail.load(Acquire); if head == tail { return None }`
+         ldTail  `let tail = self.tail.load(Acquire); if head == tail { …`
+         retNone `… return None }`   (no access; a preemption point so that schedules can separate an
+                 empty `pop` from the caller's next access)
          read    `(*self.buffer[head & mask].get()).assume_init_read()`
          stHead  `self.head.store(head.wrapping_add(1), Release)`
 
@@ -101,6 +103,7 @@ def pushStep (r : Ring) (v : Val) : PushPc → Ring × PushOut
 inductive PopPc
   | ldHead
   | ldTail (hl : Nat)
+  | retNone                     -- queue found empty; pure preemption point before `return None`
   | read (hl : Nat)
   | stHead (hl : Nat) (v : Val)
 deriving DecidableEq, Repr
@@ -125,7 +128,8 @@ def Ring.storeHead (r : Ring) (hl : Nat) (v : Val) : Ring :=
 /-- one shared-memory access of `SpscRing::pop()` -/
 def popStep (r : Ring) : PopPc → Ring × PopOut
   | .ldHead => (r, .cont (.ldTail r.head))
-  | .ldTail hl => if hl = r.tail then (r, .empty) else (r, .cont (.read hl))
+  | .ldTail hl => if hl = r.tail then (r, .cont .retNone) else (r, .cont (.read hl))
+  | .retNone => (r, .empty)
   | .read hl => let (r', v) := r.readSlot (r.idx hl); (r', .cont (.stHead hl v))
   | .stHead hl v => (r.storeHead hl v, .done v)
 
